@@ -531,6 +531,16 @@ unsigned int ares_dns_rr_get_ttl(const ares_dns_rr_t *rr)
   if (rr == NULL) {
     return 0;
   }
+
+  /* Records handed out from the query cache carry the time they spent cached,
+   * every TTL visible to the caller must be reduced by it. */
+  if (rr->parent != NULL && rr->parent->ttl_decrement > 0) {
+    if (rr->parent->ttl_decrement > rr->ttl) {
+      return 0;
+    }
+    return rr->ttl - rr->parent->ttl_decrement;
+  }
+
   return rr->ttl;
 }
 
